@@ -234,8 +234,47 @@ def project_header(sh):
     return e
 
 
+_OBS = {"installed": False, "rec": None}
+
+
+def install_observer():
+    """Observation without editing the code (DESIGN 3.3): the validator calls its sequence_header() through
+    the module global vc2_conformance.decoder.stream.sequence_header; wrap it (add-only) to record whether
+    the header was accepted (the function returned) and what it decoded."""
+    if _OBS["installed"]:
+        return
+    import vc2_conformance.decoder.stream as stream
+
+    orig = stream.sequence_header
+
+    def observed_sequence_header(state):
+        rec = _OBS["rec"]
+        try:
+            vp = orig(state)
+        except Exception as ex:  # noqa -- recorded and re-raised unchanged
+            if rec is not None and rec["calls"] == 0:
+                rec.update(ok=False, exc=type(ex).__name__, key=str(getattr(ex, "key", "")), sig=common.exc_signature(ex), ver=int(state.get("major_version", -1)))
+                rec["calls"] += 1
+            raise
+        if rec is not None and rec["calls"] == 0:
+            rec.update(
+                ok=True,
+                dec=dict((k, (bool(vp[k]) if k == "top_field_first" else int(vp[k]))) for k in VP_KEYS),
+                dpcm=int(state["picture_coding_mode"]),
+                ver=int(state["major_version"]),
+            )
+            rec["calls"] += 1
+        return vp
+
+    stream.sequence_header = observed_sequence_header
+    _OBS["installed"] = True
+
+
 def validate_header(sh):
-    """serialise [sequence_header, end_of_sequence] with autofill and run the real validator"""
+    """serialise [sequence_header, end_of_sequence] with autofill, run the real validator (parse_stream) and
+    observe its sequence_header step.  Accepted = the validator's sequence_header() returned; what the
+    validator says about the rest of this artificial two-unit sequence (levels 64-66 demand a picture after
+    every sequence header) is recorded as `after` but is not part of C15."""
     import copy
 
     from vc2_data_tables import ParseCodes
@@ -243,6 +282,7 @@ def validate_header(sh):
     from vc2_conformance.pseudocode.state import State
     from vc2_conformance.decoder import init_io, parse_stream
 
+    install_observer()
     seq = Sequence(
         data_units=[
             DataUnit(parse_info=ParseInfo(parse_code=ParseCodes.sequence_header), sequence_header=copy.deepcopy(sh)),
@@ -254,35 +294,54 @@ def validate_header(sh):
     f.seek(0)
     st = State()
     init_io(st, f)
-    r = {"ok": True, "exc": "", "key": "", "dec": {}, "dpcm": -1, "ver": -1, "nbytes": len(f.getvalue())}
+    r = {"ok": False, "exc": "NotReached", "key": "", "dec": {}, "dpcm": -1, "ver": -1, "after": "", "calls": 0}
+    _OBS["rec"] = r
     try:
         parse_stream(st)
-    except Exception as ex:  # noqa  -- any exception is "not accepted"
-        r["ok"] = False
-        r["exc"] = type(ex).__name__
-        r["key"] = str(getattr(ex, "key", ""))
-        r["sig"] = common.exc_signature(ex)
-    r["ver"] = int(st.get("major_version", -1))
+    except Exception as ex:  # noqa
+        r["after"] = type(ex).__name__
+        if r["calls"] == 0:  # rejected before the sequence header was reached
+            r.update(exc=type(ex).__name__, sig=common.exc_signature(ex))
+    finally:
+        _OBS["rec"] = None
     if r["ok"]:
-        vp = st["video_parameters"]
-        r["dec"] = dict((k, (bool(vp[k]) if k == "top_field_first" else int(vp[k]))) for k in VP_KEYS)
-        r["dpcm"] = int(st["picture_coding_mode"])
+        r["exc"] = ""
+    del r["calls"]
     return r
 
 
+def thin(headers):
+    """quick tier: every header of the best-ranked base format, first and last header of every other one"""
+    keep = []
+    i = 0
+    first_base = headers[0]["base_video_format"] if headers else None
+    while i < len(headers):
+        j = i
+        while j < len(headers) and headers[j]["base_video_format"] == headers[i]["base_video_format"]:
+            j += 1
+        if headers[i]["base_video_format"] == first_base and i == 0:
+            keep.extend(range(i, j))
+        else:
+            keep.extend(sorted(set([i, j - 1])))
+        i = j
+    return keep
+
+
 def exec_case(job):
-    """One configuration -> one trace event (all alternative headers with verdicts)."""
+    """One configuration -> one trace event (alternative headers with verdicts)."""
     tid, cfg, full = job
     from vc2_conformance.encoder.sequence_header import iter_sequence_headers
 
-    ev = {"tid": tid, "ev": "cfg", "req": cfg["vp"], "pcm": cfg["pcm"], "level": cfg["level"], "ft": cfg["ft"], "full": bool(full), "hs": [], "gen_exc": ""}
+    ev = {"tid": tid, "ev": "cfg", "req": cfg["vp"], "pcm": cfg["pcm"], "level": cfg["level"], "ft": cfg["ft"], "full": bool(full), "hs": [], "gen_exc": "", "generated": 0}
     try:
         headers = list(iter_sequence_headers(make_codec_features(cfg)))
     except Exception as ex:  # noqa
         ev["gen_exc"] = common.exc_signature(ex)
         headers = []
-    for sh in headers:
-        h = {"b": int(sh["base_video_format"]), "e": project_header(sh)}
+    ev["generated"] = len(headers)
+    for i in (range(len(headers)) if full else thin(headers)):
+        sh = headers[i]
+        h = {"n": i, "b": int(sh["base_video_format"]), "e": project_header(sh)}
         h.update(validate_header(sh))
         ev["hs"].append(h)
     return ev
@@ -412,14 +471,26 @@ def selftest_binding(cfgs, tables):
 
 
 # ------------------------------------------------------------------------------------------------ run
+def _cpu():
+    t = os.times()
+    return t.user + t.system + t.children_user + t.children_system
+
+
 def run(ctx):
     import random
+
+    cpu0 = _cpu()
+    phases = {}
+
+    def phase(name):
+        phases[name] = round(_cpu() - cpu0 - sum(phases.values()), 1)
 
     scratch = tlc.mkscratch("gen")
     tables = gen_tables(scratch)
     mp = ctx.pick(1, 2)
     res = tlc.run("SeqHeaderFormats", read_cfg("SeqHeaderFormats.cfg", MaxPerturb=mp), dump=True, coverage=False, extra_files=[tables], timeout=3000)
     cfgs, per_stage = final_states(res.dump_path, DONE)
+    phase("tlc_exhaustive")
     dims = ["Init", "ChooseBase", "ChooseSz", "ChooseCd", "ChooseSc", "ChooseFr", "ChooseAr", "ChooseCa", "ChooseSr", "ChooseCo", "ChoosePcm", "ChooseCfg"]
     res.coverage = dict((dims[s - 1], [n, n]) for s, n in sorted(per_stage.items()) if s >= 2)  # states produced per action (counted from the dump)
     ctx.add_tlc(res, "exhaustive format machine", {"MaxPerturb": mp, "RealLevels": True, "bases": 23})
@@ -439,11 +510,14 @@ def run(ctx):
     walks = sim_finals(sim.sim_dir, DONE)
     if len(walks) < nsim // 2:
         raise RuntimeError("simulation produced only %d complete configurations" % len(walks))
+    phase("tlc_deviation_and_simulate")
     todo = singles + doubles + walks
     frac = ctx.pick(0.15, 0.5)
     jobs = [(i + 1, c, rnd.random() < frac) for i, c in enumerate(todo)]
     events = common.pmap(exec_case, jobs)
+    phase("implementation")  # NB: CPU of pool workers is only accounted when the pool is joined
     alarms, dis, ress = judge(ctx, events, tables, 12)
+    phase("trace_validation")
     for r in ress:
         ctx.tlc_runs.append(dict(r.summary(), name="trace validation chunk (SeqHeaderTrace)"))
     ctx.coverage["states"] += sum(r.distinct for r in ress)
@@ -457,6 +531,7 @@ def run(ctx):
     empty = sum(1 for e in events if not e["hs"])
     genexc = sorted(set(e["gen_exc"] for e in events if e["gen_exc"]))
     st = selftest_binding(cfgs, tables)
+    phase("selftest")
     distinct = len(set(repr((e["req"], e["pcm"], e["level"], h["b"], h["e"])) for e in events for h in e["hs"] if h["e"] != events[0]["hs"][0]["e"] or True))
     nontrivial = len(set(repr((e["req"], e["pcm"], e["level"], h["b"], h["e"])) for e in events for h in e["hs"] if any(h["e"][g]["f"] == 1 for g in h["e"])))
     ctx.coverage.update(
@@ -464,11 +539,13 @@ def run(ctx):
             "traces_validated_against_impl": len(events),
             "evaluations": nh,
             "distinct_nontrivial": nontrivial,
-            "rule": "one evaluation = one generated sequence header serialised, validated by the real validator and judged by SeqHeaderTrace; configurations = completed choices of SeqHeaderFormats.tla (all with <= 1 deviating group%s, plus %d simulate walks with up to 8 deviating groups); distinct = (requested format, coding mode, level, base format, encoding); non-trivial = the encoding sets at least one custom flag" % (", a seeded sample of those with 2" if mp > 1 else "", len(walks)),
+            "rule": "quick tier: of the headers of a configuration all those on the best-ranked base format and the first and last on every other base format are validated (all of them for the seeded 'fully cross-checked' configurations; thorough: for half); one evaluation = one generated sequence header serialised, validated by the real validator and judged by SeqHeaderTrace; configurations = completed choices of SeqHeaderFormats.tla (all with <= 1 deviating group%s, plus %d simulate walks with up to 8 deviating groups); distinct = (requested format, coding mode, level, base format, encoding); non-trivial = the encoding sets at least one custom flag" % (", a seeded sample of those with 2" if mp > 1 else "", len(walks)),
             "exhaustive": True,
             "exhaustive_note": "the TLC model is explored completely for MaxPerturb=%d; all its configurations with <= 1 deviating group are executed against the implementation%s" % (mp, "; of those with 2 a seeded sample of %d" % len(doubles) if mp > 1 else ""),
             "configurations": {"single": len(singles), "double": len(doubles), "walks": len(walks)},
-            "headers": nh,
+            "headers_generated": sum(e["generated"] for e in events),
+            "headers_validated": nh,
+            "cpu_seconds_by_phase": phases,
             "headers_accepted": nok,
             "distinct_headers": distinct,
             "configurations_without_header": empty,
